@@ -280,6 +280,17 @@ func (m *Machine) binop(it *Item, x *ssa.BinOp) Value {
 		case token.QUO:
 			m.obligePanic(it, c.Eq(bv, m.IntC(0)), "integer divide by zero")
 			if ii.unsigned {
+				if m.IntMode && !bv.IsConst() && !av.IsConst() {
+					// symbolic / symbolic over the integers: the defining relation (and the obvious lemma for a
+					// dividend below the divisor) instead of the solver's div, which it does not decide in time
+					q, r := m.Fresh("quo", sym.SInt), m.Fresh("rem", sym.SInt)
+					z := m.IntC(0)
+					pos := m.slt(z, bv)
+					m.Assume(c.Implies(pos, c.And(c.Eq(av, m.add(c.Bin(sym.OpMul, q, bv), r)), m.sle(z, r), m.slt(r, bv), m.sle(z, q), m.sle(q, av))),
+						"unsigned division: dividend = quotient*divisor + remainder, 0 <= remainder < divisor")
+					m.Assume(c.Implies(c.And(pos, m.sle(z, av), m.slt(av, bv)), c.Eq(q, z)), "unsigned division: a dividend below the divisor gives 0")
+					return q
+				}
 				return c.Bin(sym.OpUDiv, av, bv)
 			}
 			return m.normInt(it, x.Type(), c.Bin(sym.OpSDiv, av, bv), "division")
